@@ -4,33 +4,38 @@
     code does. *)
 From V Require Import Base.Util Gql.Ast Writer.Wop Ts.TsType Ts.TsDen C10.Model C10.Spec C10.DenLemmas C10.Proofs.
 
-(** for every identifier [i] of the bag, "__tmp_"+i is not in the bag as well *)
-Definition bag_ok (bag : list str) : bool := forallb (fun i => negb (mem (TMP_PREFIX ++ i) bag)) bag.
+(** for every identifier [i] of the bag or keyword, "__tmp_"+i is not in the bag as well *)
+Definition bag_ok (bag : list str) : bool := forallb (fun i => negb (mem (TMP_PREFIX ++ i) bag)) (bag ++ EMITTED_KEYWORDS).
 
 Lemma local_name_not_in_bag bag n : bag_ok bag = true -> mem (local_name bag n) bag = false.
 Proof.
-  intros H. unfold local_name. destruct (mem n bag) eqn:Hn; [|exact Hn].
-  unfold bag_ok in H. rewrite forallb_forall in H.
-  apply mem_In in Hn. specialize (H _ Hn). apply negb_true_iff in H. exact H.
+  intros H. unfold local_name. unfold bag_ok in H. rewrite forallb_forall in H.
+  destruct (mem n bag) eqn:Hn.
+  - cbn [orb]. apply mem_In in Hn. specialize (H n (in_or_app _ _ _ (or_introl Hn))). apply negb_true_iff in H. exact H.
+  - cbn [orb]. destruct (mem n EMITTED_KEYWORDS) eqn:Hk; [|exact Hn].
+    apply mem_In in Hk. specialize (H n (in_or_app _ _ _ (or_intror Hk))). apply negb_true_iff in H. exact H.
 Qed.
 
-(** the words the printers emit as types; a declaration with such a name would not be a type alias
-    declaration ([type null = …] is a syntax error) and would change the meaning of [T | null] *)
-Definition EMITTED_KEYWORDS : list str := [s "null"; s "undefined"; s "never"; s "unknown"].
-
+(** a declaration is never named like a word the printers emit as a type ([type null = …] would not
+    be a type alias declaration and would change the meaning of [T | null]) *)
 Definition no_keyword_names (doc : tsdoc) : bool :=
   forallb (fun td => negb (mem (tname td) EMITTED_KEYWORDS)) (typedefs doc).
 
-Lemma local_name_not_keyword bag n : mem n EMITTED_KEYWORDS = false -> mem (local_name bag n) EMITTED_KEYWORDS = false.
+Lemma local_name_not_keyword bag n : mem (local_name bag n) EMITTED_KEYWORDS = false.
 Proof.
-  intros H. unfold local_name. destruct (mem n bag); [|exact H].
-  unfold mem, EMITTED_KEYWORDS, TMP_PREFIX. cbn [existsb].
-  repeat match goal with |- context [str_eqb ?a ?b] =>
-    let E := fresh in destruct (str_eqb_spec a b) as [E|E]; [vm_compute in E; discriminate|] end.
-  reflexivity.
+  unfold local_name. destruct (mem n EMITTED_KEYWORDS) eqn:Hk.
+  - rewrite orb_true_r. unfold mem, EMITTED_KEYWORDS, TMP_PREFIX. cbn [existsb].
+    repeat match goal with |- context [str_eqb ?a ?b] =>
+      let E := fresh in destruct (str_eqb_spec a b) as [E|E]; [vm_compute in E; discriminate|] end.
+    reflexivity.
+  - rewrite orb_false_r. destruct (mem n bag); [|exact Hk].
+    unfold mem, EMITTED_KEYWORDS, TMP_PREFIX. cbn [existsb].
+    repeat match goal with |- context [str_eqb ?a ?b] =>
+      let E := fresh in destruct (str_eqb_spec a b) as [E|E]; [vm_compute in E; discriminate|] end.
+    reflexivity.
 Qed.
 
-(** ** refutations (current behaviour) *)
+(** ** witnesses (current behaviour) *)
 Definition P0' := pos0.
 Definition kw0 (k : String.string) : keyword := mkKw (s k) pos0.
 Arguments kw0 k%string_scope.
@@ -49,17 +54,20 @@ Lemma local_names_capture_refuted :
   mem (local_name bag (s "Date")) bag = true.
 Proof. vm_compute. split; reflexivity. Qed.
 
-(** [type null { a: Int }] : accepted by [check], declared as [export type null = …] *)
+(** [type null { a: Int }] : accepted by [check] *)
 Definition keyword_doc : tsdoc :=
   [TSType (TDScalar None pos0 (id0 "Int") [] (kw0 "scalar"));
    TSType (TDObject None pos0 (id0 "null") [] [] [mkFieldDef None (id0 "a") None (TNamed (id0 "Int")) []] (kw0 "type"))].
 Definition keyword_opts : sopts := mkSOpts [(s "Int", ScSingle (s "number"))] (s "__nitrogql_schema") true false.
 
-Lemma keyword_name_refuted :
+(** since /repo d4bb3a6 such a type is declared under [__tmp_null] and re-exported as [null] *)
+Lemma keyword_name_renamed :
   wf_schema keyword_opts keyword_doc = true /\
   exists ms m, namespace_members keyword_opts keyword_doc OpOut = Ok ms /\ In (Some m) ms /\
-               mem (m_local m) EMITTED_KEYWORDS = true.
+               iname (m_name m) = s "null" /\ m_local m = s "__tmp_null" /\
+               mem (m_local m) EMITTED_KEYWORDS = false.
 Proof.
   split; [vm_compute; reflexivity|].
-  eexists. eexists. split; [vm_compute; reflexivity|]. split; [right; left; reflexivity|]. vm_compute. reflexivity.
+  eexists. eexists. split; [vm_compute; reflexivity|]. split; [right; left; reflexivity|].
+  repeat split; vm_compute; reflexivity.
 Qed.
